@@ -143,9 +143,8 @@ fn known_triggers(w: &World, k1: &BTreeMap<String, String>, k2: &BTreeMap<String
   if !w.imports.is_empty() {
     triggers.push("code-only-build-loads-configured-type-imports"); // F15
   }
-  if has_item(&|f| matches!(f, Form::SourceMap)) {
-    triggers.push("source-map-entry-dropped-by-prune"); // F16
-  }
+  // (F16, "source-map-entry-dropped-by-prune", was repaired: prune_types keeps what a module's
+  // source map resolves to; worlds with source maps are no longer set aside)
   if w.opts.skip_dynamic_deps {
     triggers.push("prune-keeps-target-of-skipped-dynamic-import"); // F17
   }
